@@ -5,6 +5,7 @@
 //! c13produce : <form> <v>                          -> <status> <text>   (text = what the shell printed)
 //! c13consume : <reader> <text>                     -> <status> <field>*
 //!   readers: arg (fields: argc, $1) | asg (x) | var:NAME | arr:NAME (k v)* | alias:NAME | trap:SIG
+//! c13fmt    : <kind i|h> (<key> <value>)* -> <text>   ShellValue::format(DeclarePrint) of an array
 //! c13decode : <text> -> O <bytes as hex text> | E   (escape::expand_backslash_escapes, ANSI-C mode)
 //! Every case runs in a fresh in-process shell whose working directory is a scratch directory.
 use crate::sh::new_shell;
@@ -288,8 +289,43 @@ fn do_decode(c: &[String]) -> String {
     }
 }
 
+fn do_fmt(rt: &tokio::runtime::Runtime, c: &[String]) -> String {
+    let kind = unhex_str(c.first().map(|s| s.as_str()).unwrap_or("-"));
+    let fields: Vec<String> = c.iter().skip(1).map(|s| unhex_str(s)).collect();
+    let value = if kind == "i" {
+        let mut m = std::collections::BTreeMap::new();
+        for kv in fields.chunks(2) {
+            if let [k, v] = kv {
+                m.insert(k.parse::<u64>().unwrap_or(0), v.clone());
+            }
+        }
+        ShellValue::IndexedArray(m)
+    } else {
+        let mut m = std::collections::BTreeMap::new();
+        for kv in fields.chunks(2) {
+            if let [k, v] = kv {
+                m.insert(k.clone(), v.clone());
+            }
+        }
+        ShellValue::AssociativeArray(m)
+    };
+    let out = tmpfile();
+    let err = tmpfile();
+    let text = rt.block_on(async {
+        let shell = new_shell(&out, &err, "noenv").await.ok()?;
+        value
+            .format(brush_core::variables::FormatStyle::DeclarePrint, &shell)
+            .ok()
+            .map(|c| c.into_owned())
+    });
+    match text {
+        Some(t) => hex(t.as_bytes()),
+        None => hex(b"?format"),
+    }
+}
+
 pub fn run(sub: &str, cases: &[Vec<String>]) -> bool {
-    if !matches!(sub, "c13quote" | "c13produce" | "c13consume" | "c13decode") {
+    if !matches!(sub, "c13quote" | "c13produce" | "c13consume" | "c13decode" | "c13fmt") {
         return false;
     }
     if sub == "c13decode" {
@@ -309,6 +345,7 @@ pub fn run(sub: &str, cases: &[Vec<String>]) -> bool {
         .expect("rt");
     for c in cases {
         let r = std::panic::catch_unwind(std::panic::AssertUnwindSafe(|| match sub {
+            "c13fmt" => do_fmt(&rt, c),
             "c13quote" => do_quote(c),
             "c13produce" => do_produce(&rt, c),
             _ => do_consume(&rt, c),
